@@ -14,7 +14,10 @@ CtorNotes == NoteSets(NoteCands({0}, {60, 62}, {0, 10, 30}, {6, 20, 70}, {80}), 
 (* signature-event plans relative to the bar's own signature s and another one o *)
 TsPlans(s, o) == {{}, {MTs(0, 0, s[1], s[2])}, {MTs(0, 0, o[1], o[2])}, {MTs(12, 0, s[1], s[2])},
                   {MTs(0, 0, s[1], s[2]), MTs(12, 0, o[1], o[2])}, {MTs(0, 0, s[1], s[2]), MTs(12, 0, s[1], s[2])},
-                  {MTs(0, 0, o[1], o[2]), MTs(12, 0, s[1], s[2])}, {MTs(0, 0, s[1], s[2]), MKs(0, 0, "G")}}
+                  {MTs(0, 0, o[1], o[2]), MTs(12, 0, s[1], s[2])}, {MTs(0, 0, s[1], s[2]), MKs(0, 0, "G")},
+                  \* two signature events on one tick (the harness lays them out in both orders)
+                  {MTs(0, 0, s[1], s[2]), MTs(0, 0, o[1], o[2])}, {MTs(12, 0, s[1], s[2]), MTs(12, 0, o[1], o[2])},
+                  {MTs(0, 0, s[1], s[2]), MTs(0, 0, o[1], o[2]), MTs(0, 0, 5, 8)}}
 Other(s) == IF s = <<4, 4>> THEN <<3, 4>> ELSE <<4, 4>>
 CtorCases == UNION {{[notes |-> N, extras |-> X, dur |-> d, num |-> s[1], den |-> s[2]] :
                         N \in CtorNotes, X \in TsPlans(s, Other(s)),
